@@ -672,6 +672,20 @@ package sbom
 //@   invariant L2: [C09:inv] old(addSep(nl, nl2)) ==> (forall r string :: (r in elems(nl.RootElements)) <==> ((r in old(elems(nl.RootElements))) || (r in elemsn(nl2.RootElements, _i))))
 //@   invariant L2: [C09:inv] old(addSep(nl, nl2)) ==> (forall k string :: (k in rootElements) ==> (k in old(elems(nl.RootElements))))
 
+// closedRoots in index form (robust against in-place appends that overwrite a shared cell with a valid identifier)
+//@ pred closedRootsIdx(nl *NodeList) = forall j int :: 0 <= j && j < len(nl.RootElements) ==> (nl.RootElements[j] in fieldset(nl.Nodes, Id))
+
+//@ func NodeList.RelateNodeAtID
+//@   props C08
+//@   requires validNL(nl) && n != nil
+//@   ensures [C08:relateNode:error] (result != nil) <==> !(nodeID in old(fieldset(nl.Nodes, Id)))
+//@   ensures [C08:relateNode:unchangedOnError] result != nil ==> nl.Nodes == old(nl.Nodes) && nl.Edges == old(nl.Edges) && nl.RootElements == old(nl.RootElements)
+//@   ensures [C08:relateNode:valid] validNL(nl)
+//@   ensures [C08:relateNode:ids] result == nil ==> (forall x string :: (x in fieldset(nl.Nodes, Id)) <==> ((x in old(fieldset(nl.Nodes, Id))) || x == n.Id))
+//@   ensures [C08:relateNode:closed] result == nil && old(closedEdges(nl)) ==> closedEdges(nl)
+//@   ensures [C08:relateNode:rootsClosed] old(closedRootsIdx(nl)) ==> closedRootsIdx(nl)
+//@   ensures [C08:relateNode:unique] old(uniqueIdx(nl)) ==> uniqueIdx(nl)
+
 //@ func NodeList.RelateNodeListAtID
 //@   props C04, C08
 //@   requires validNL(nl) && validNL(nl2) && separatedNL(nl, nl2)
